@@ -24,8 +24,8 @@ type inlRet struct {
 
 const (
 	inlMaxDepth  = 2
-	inlMaxInstrs = 80
-	inlMaxBlocks = 16
+	inlMaxInstrs = 250
+	inlMaxBlocks = 48
 )
 
 func (e *fnEnc) canInline(callee *ssa.Function, key string) bool {
